@@ -11,7 +11,7 @@
   outside a block, every label operand converts (defined, not external, fits), and the non-empty blocks start at distinct
   addresses (C01: the overlap check makes every inserted block's start fresh).
   and no two blocks of the object file overlap (`accepted_blocks_disjoint`, Lemmas/Disjoint.lean).
-  Converse for the second pass (`second_pass_accepts`): a structured program whose statements all convert and whose non-empty
+  Exact characterisation of the second pass (`second_pass_iff`, both directions; converse `second_pass_accepts`): a structured program whose statements all convert and whose non-empty
   blocks do not overlap is accepted by pass 2.
   Not proved: the converse for pass 1 (no label conflict and no block-size error ⇒ pass 1 succeeds) as one statement;
   these are what the correspondence check decides with an independent well-formedness scan over programs with injected faults.
@@ -177,8 +177,28 @@ theorem second_pass_accepts (t : SymTab) (blks : List Blk) (tail : List Stmt)
     (blks.flatMap Blk.stmts ++ tail).foldlM (pass2Step t) ⟨[], none⟩ = .ok ⟨blks.foldl (addBlk t) [], none⟩ :=
   pass2_accepts t blks [] tail hwf ht hws hpw (fun _ _ _ _ _ x hx => by cases hx)
 
+/-- **the second pass accepts exactly** the structured programs whose statements all convert and whose non-empty blocks do not
+    overlap -/
+theorem second_pass_iff (t : SymTab) (blks : List Blk) (tail : List Stmt)
+    (hwf : ∀ b ∈ blks, b.WF ∧ ∀ s ∈ b.gap, isExternal s.nucleus = true) (ht : ∀ s ∈ tail, isExternal s.nucleus = true) :
+    (∃ st', (blks.flatMap Blk.stmts ++ tail).foldlM (pass2Step t) ⟨[], none⟩ = .ok st') ↔
+    ((∀ b ∈ blks, ∃ ws, bodyWords t b.a b.body = .ok ws) ∧ blks.Pairwise (BlkClear t)) := by
+  have htail : ∀ s ∈ tail, isOrigEnd s.nucleus = false := by
+    intro s hs
+    have := ht s hs
+    cases hn : s.nucleus with
+    | instr i => rfl
+    | directive d => rw [hn] at this; cases d <;> first | rfl | cases this
+  constructor
+  · rintro ⟨st', h⟩
+    have h1 := (pass2_blocks t blks [] tail st' (fun b hb => (hwf b hb).1) htail h).2
+    have h2 := (pass2_accepted_clear t blks [] tail st' (fun b hb => (hwf b hb).1) htail ⟨List.Pairwise.nil, fun x hx => by cases hx⟩ h).1
+    exact ⟨h1, h2⟩
+  · rintro ⟨h1, h2⟩
+    exact ⟨_, second_pass_accepts t blks tail hwf ht h1 h2⟩
+
 def obligations : List Lean.Name :=
-  [``second_pass_accepts, ``accepted_structure, ``accepted_operands, ``accepted_blocks_disjoint, ``Lc3V.all_disjoint_of_neighbours, ``shift_zero, ``shift_ok, ``shift_io, ``shift_wrap, ``shift_keeps_flag, ``labels_outside_block, ``nested_orig,
+  [``second_pass_iff, ``second_pass_accepts, ``accepted_structure, ``accepted_operands, ``accepted_blocks_disjoint, ``Lc3V.all_disjoint_of_neighbours, ``shift_zero, ``shift_ok, ``shift_io, ``shift_wrap, ``shift_keeps_flag, ``labels_outside_block, ``nested_orig,
    ``end_without_orig, ``stmt_outside_block, ``unclosed_orig, ``external_operand, ``undefined_operand,
    ``C01.addLabel_spec, ``C01.addLabel_conflict, ``C01.label_operand]
 
